@@ -38,8 +38,8 @@ func (Engine) Property() string { return "C19" }
 func (Engine) Gen(seed uint64, idx int, tier string) interface{} {
 	r := simrt.NewRand(simrt.Mix(seed, 0x19, uint64(idx)))
 	sc := &Scenario{Prog: gen.GenImport(r, true), Contexts: 1, Order: simrt.MapOrder{Kind: r.Intn(4), K: r.Uint64()}, SSeed: r.Uint64(), PNum: 1 + r.Intn(50)}
-	if r.Chance(1, 4) {
-		sc.Contexts = 2
+	if r.Chance(1, 4) && len(sc.Prog.Late) == 0 {
+		sc.Contexts = 2 // (files that appear at run time would be seen by both contexts: single context only)
 	}
 	return sc
 }
@@ -69,7 +69,7 @@ func (Engine) Prepare(batch []interface{}) error {
 			continue
 		}
 		after := sc.Prog.RenderAfter()
-		progs = append(progs, pyhost.RefProgram{ID: i, Main: sc.Prog.RenderMain(), After: &after, Files: sc.Prog.Files(), Path: sc.Prog.Path})
+		progs = append(progs, pyhost.RefProgram{ID: i, Main: sc.Prog.RenderMain(), After: &after, Files: sc.Prog.Files(), Late: sc.Prog.LateFiles(), Path: sc.Prog.Path})
 	}
 	if len(progs) == 0 {
 		return nil
@@ -142,6 +142,12 @@ func (Engine) Exec(sci interface{}, opt harness.ExecOpts) *harness.Outcome {
 		fs.AddDir("/simcwd/" + d)
 	}
 	files := sc.Prog.Files()
+	for _, m := range sc.Prog.Late {
+		rel := m.Dir + "/" + m.Name + ".py"
+		if src, ok := files[rel]; ok { // present from the start (directory not on sys.path yet)
+			fs.AddFile("/simcwd/"+rel, src)
+		}
+	}
 	for _, m := range sc.Prog.Mods {
 		rel := m.Dir + "/" + m.Name + ".py"
 		n := fs.AddFile("/simcwd/"+rel, files[rel])
@@ -159,6 +165,14 @@ func (Engine) Exec(sci interface{}, opt harness.ExecOpts) *harness.Outcome {
 	}
 	simfs.Install(fs)
 	defer simfs.Install(nil)
+	late := sc.Prog.LateFiles()
+	pyhost.FSAdd = func(rel string) {
+		if src, ok := late[rel]; ok {
+			fs.AddFile("/simcwd/"+rel, src)
+			out.Fault("fs_file_appears_at_runtime", 1)
+		}
+	}
+	defer func() { pyhost.FSAdd = nil }()
 	var paths []string
 	for _, d := range sc.Prog.Path {
 		paths = append(paths, "/simcwd/"+d)
